@@ -30,7 +30,7 @@ PYTHONPATH=$wt /venv/bin/python $sd/demo.py >/dev/null 2>&1; demo_without_rc=$?
 echo "  tests(with patch): $tests | demo rc with=$demo_with_rc without=$demo_without_rc"
 cp $sd/patch.diff $sd/demo.py $out/ 2>/dev/null; cp $sd/NOTES.md $out/NOTES.md 2>/dev/null
 cat > $out/meta.json <<M
-{"seed": "$id-$X", "target_property": "$(echo $id | tr a-z A-Z)", "tests_with_patch": "$tests",
+{"seed": "$id-$X", "target_property": "$(echo $id | sed "s/^r[0-9]//" | tr a-z A-Z)", "tests_with_patch": "$tests",
  "demo_exit_with_patch": $demo_with_rc, "demo_exit_without_patch": $demo_without_rc,
  "checks_run": $results,
  "base_commit": "$(git -C /repo rev-parse --short HEAD)",
